@@ -31,12 +31,12 @@ type chainDesc struct {
 	keys     []string   // key name per position
 	wrongKey map[int]bool
 	wrongDN  map[int]bool
-	permDN   map[int]bool // issuer name = the issuer's subject with its attributes in another order (another DER, same text)
-	utf8DN   map[int]bool // issuer name = the issuer's subject with its values as UTF8String instead of PrintableString (other DER, same text)
-	akiRoot  bool         // the root carries an authority key identifier that differs from its subject key identifier (legal, unusual)
-	sha1     map[int]bool // certificate below the root signed (validly) with a SHA-1 based algorithm, which crypto/x509 does not accept as a signature
+	permDN   map[int]bool   // issuer name = the issuer's subject with its attributes in another order (another DER, same text)
+	utf8DN   map[int]bool   // issuer name = the issuer's subject with its values as UTF8String instead of PrintableString (other DER, same text)
+	akiRoot  bool           // the root carries an authority key identifier that differs from its subject key identifier (legal, unusual)
+	sha1     map[int]bool   // certificate below the root signed (validly) with a SHA-1 based algorithm, which crypto/x509 does not accept as a signature
 	extOrder map[int]string // the certificate's extensions written in another order (pki.ExtOrder); X.509 gives the order no meaning
-	badSig   map[int]bool // signature value of the certificate at this position corrupted after issuance (content untouched)
+	badSig   map[int]bool   // signature value of the certificate at this position corrupted after issuance (content untouched)
 	// structural operation applied after forging
 	structural string
 	structArg  int
@@ -46,7 +46,7 @@ type chainDesc struct {
 	// lessThanASecondLate is the supplied signing time (same pointer) when it lies less than a second after a NotAfter: given to the
 	// validator as it is, it is outside the validity; a sign request carries whole seconds, so through Sign it is the NotAfter second itself
 	lessThanASecondLate *time.Time
-	labels       []string // mods applied, for traces
+	labels              []string // mods applied, for traces
 }
 
 var caKeyCycle = []string{"p256-a", "p384-a", "rsa2048-a", "p256-b", "p384-b"}
